@@ -426,6 +426,11 @@ func sortTarHeaders(headers []tar.Header) []tar.Header {
 	for _, header := range headers {
 		// Use a cleaned name for map keys to ensure consistency with lookups later.
 		cleanedName := filepath.Clean(header.Name)
+		if cleanedName == "." {
+			// The root itself ("", ".", "./", "a/..") is not an entry of the database; it is
+			// its own parent, so keeping it would make the descent below recurse forever.
+			continue
+		}
 
 		dir := filepath.Dir(cleanedName)
 		directoryChildren[dir] = append(directoryChildren[dir], cleanedName)
